@@ -25,6 +25,10 @@ def time_index(e):
     if ka is None or ka.kind != 'tuple' or len(ka.args) != 2:
         return None
     col = T.canon(ka.args[1]).single_atom()          # (t_idx + 1)[None, :] and t_idx[None, :] + 1 alike
+    if col is not None and col.kind == 'slice':
+        # buf[chans, start::step]: the same affine sequence written as a slice
+        lo, hi, st = col.args
+        return (lo, Term.num(1) if T._isnone(st) else st, None)
     if col is None or col.kind != 'sub':
         return None
     s = T.as_seq(T.subst(col.args[0], lambda a: None))
